@@ -131,6 +131,10 @@ impl<'a> Cur<'a> {
             "t" => AssetInfo::Token {
                 contract_addr: addr_s(v),
             },
+            // the same contract address written in upper case: not the normalised spelling of any account
+            "T" => AssetInfo::Token {
+                contract_addr: addr_s(v).to_uppercase(),
+            },
             _ => panic!("harness: bad asset kind"),
         }
     }
@@ -246,6 +250,15 @@ impl World {
                 denom
                     .strip_prefix("denom")
                     .and_then(|s| s.parse().ok())
+                    .or_else(|| {
+                        use std::sync::atomic::Ordering::SeqCst;
+                        let d = LOOK_D.load(SeqCst);
+                        if d != u64::MAX && *denom == denom_s(d as u128) {
+                            Some(d as u128)
+                        } else {
+                            None
+                        }
+                    })
                     .expect("harness: foreign denom"),
             ),
             AssetInfo::Token { contract_addr } => (1, addr_id(contract_addr)),
